@@ -5,18 +5,77 @@ use std::cell::Cell;
 use std::collections::{BTreeMap, HashMap, VecDeque};
 
 use gc_arena::{
-    DynamicRootSet, Gc, Lock, Mutation, RefLock,
+    DynamicRootSet, Gc, GcSliceBuilder, GcSliceWithHeaderBuilder, Lock, Mutation, RefLock, SliceWithHeader,
     barrier::{field, unlock},
     lock::OnceLock,
+    unsize,
 };
 
-use crate::ops::{Id, Kind, Route};
+use crate::ops::{Conv, Id, Kind, Route};
 use crate::payload::*;
 use crate::seam;
 use crate::tok::{FaultPoint, Tok};
 
-pub fn kind_of(any: AnyGc<'_>) -> Kind {
+/// The canonical (typed, fat) representation of a pointer, whatever form it was stored in.
+pub fn canon<'gc>(any: AnyGc<'gc>) -> AnyGc<'gc> {
     match any {
+        // SAFETY: NodeE / NodeD are only ever made from a Gc<RefLock<NodeBody>> (see `convert`)
+        AnyGc::NodeE(g) => AnyGc::Node(unsafe { Gc::cast::<RefLock<NodeBody<'gc>>>(g) }),
+        AnyGc::NodeD(g) => AnyGc::Node(unsafe { Gc::cast::<RefLock<NodeBody<'gc>>>(g) }),
+        AnyGc::ThinSlice(g) => AnyGc::Slice(Gc::as_fat(g)),
+        AnyGc::ThinSwh(g) => AnyGc::Swh(Gc::as_fat(g)),
+        other => other,
+    }
+}
+
+/// Convert a canonical pointer into the representation it is to be stored in (C19). Returns the
+/// converted pointer and, if a conversion visibly changed the pointer, what went wrong.
+pub fn convert<'gc>(mc: &Mutation<'gc>, any: AnyGc<'gc>, conv: Conv) -> (AnyGc<'gc>, Option<String>) {
+    let any = canon(any);
+    let addr = any.addr();
+    let (out, mut err): (AnyGc<'gc>, Option<String>) = match (any, conv) {
+        (AnyGc::Node(g), Conv::Erase) => {
+            let e = Gc::erase(g);
+            (AnyGc::NodeE(e), (!Gc::ptr_eq(e, Gc::erase(g))).then(|| "erase: not ptr_eq".to_string()))
+        }
+        (AnyGc::Node(g), Conv::Unsize) => {
+            let d: Gc<'gc, dyn DynNode<'gc> + 'gc> = unsize!(g => dyn DynNode<'gc> + 'gc);
+            let e = if d.dyn_id() != g.borrow().id { Some("unsize!: the trait object reads a different value".to_string()) } else { None };
+            (AnyGc::NodeD(d), e)
+        }
+        (AnyGc::Node(g), Conv::Raw) => {
+            let back = unsafe { Gc::from_ptr(Gc::as_ptr(g)) };
+            (AnyGc::Node(back), (!Gc::ptr_eq(back, g)).then(|| "as_ptr -> from_ptr: not ptr_eq".to_string()))
+        }
+        (AnyGc::Field(g), Conv::Raw) => {
+            let back = unsafe { Gc::from_ptr(Gc::as_ptr(g)) };
+            (AnyGc::Field(back), (!Gc::ptr_eq(back, g)).then(|| "as_ptr -> from_ptr: not ptr_eq".to_string()))
+        }
+        (AnyGc::Slice(g), Conv::Thin) => {
+            let t = Gc::as_thin(g);
+            let e = if t.len() != g.len() { Some(format!("as_thin: length {} became {}", g.len(), t.len())) } else { None };
+            (AnyGc::ThinSlice(t), e)
+        }
+        (AnyGc::Swh(g), Conv::Thin) => {
+            let t = Gc::as_thin(g);
+            let e = if t.slice.len() != g.slice.len() || t.header.id != g.header.id { Some("as_thin: header or length changed".to_string()) } else { None };
+            (AnyGc::ThinSwh(t), e)
+        }
+        (a, Conv::Weak) => match a.downgrade().upgrade(mc) {
+            Some(u) => (u, None),
+            // refused (Sweeping): keep the original pointer
+            None => (a, None),
+        },
+        (a, _) => (a, None),
+    };
+    if out.addr() != addr && err.is_none() {
+        err = Some(format!("{conv:?}: the converted pointer has a different address"));
+    }
+    (out, err)
+}
+
+pub fn kind_of(any: AnyGc<'_>) -> Kind {
+    match canon(any) {
         AnyGc::Node(_) => Kind::Node,
         AnyGc::Field(_) => Kind::Field,
         AnyGc::Raw(_) => Kind::Raw,
@@ -26,12 +85,17 @@ pub fn kind_of(any: AnyGc<'_>) -> Kind {
         AnyGc::LeafLock(_) => Kind::LeafLock,
         AnyGc::LeafStatic(_) => Kind::LeafStatic,
         AnyGc::SetHolder(_) => Kind::SetHolder,
+        AnyGc::Slice(g) => Kind::Slice { len: g.len() as u8 },
+        AnyGc::Swh(g) => Kind::Swh { len: g.slice.len() as u8 },
+        // what an opaque leaf is (layout entry, builder product, ZstCache object) is in the shadow
+        AnyGc::Opaque(_) => Kind::Lay { t: 255, len: 0 },
+        AnyGc::ThinSlice(_) | AnyGc::ThinSwh(_) | AnyGc::NodeE(_) | AnyGc::NodeD(_) => unreachable!(),
     }
 }
 
 /// The id the object stores about itself, where it stores one.
 pub fn stored_id(any: AnyGc<'_>) -> Option<Id> {
-    match any {
+    match canon(any) {
         AnyGc::Node(g) => Some(g.borrow().id),
         AnyGc::Field(g) => Some(g.id),
         AnyGc::Raw(g) => Some(g.id),
@@ -41,6 +105,8 @@ pub fn stored_id(any: AnyGc<'_>) -> Option<Id> {
         AnyGc::LeafLock(g) => Some(g.get() as Id),
         AnyGc::LeafStatic(g) => Some(g.id),
         AnyGc::SetHolder(g) => Some(g.id),
+        AnyGc::Swh(g) => Some(g.header.id),
+        _ => None,
     }
 }
 
@@ -119,12 +185,31 @@ pub fn alloc<'gc>(mc: &Mutation<'gc>, kind: Kind, id: Id) -> AnyGc<'gc> {
             let _t = seam::track();
             AnyGc::SetHolder(Gc::new(mc, v))
         }
-        Kind::SetInner => unreachable!("SetInner objects are created by DynamicRootSet::new"),
+        Kind::Slice { len } => {
+            let _t = seam::track();
+            AnyGc::Slice(GcSliceBuilder::<SliceElem<'gc>>::new(len as usize).write_slice_with(mc, |_| Lock::new(None)))
+        }
+        Kind::Swh { len } => {
+            let h = SwhHead { id, tok: Tok(id), fp: FaultPoint(id), slot: Lock::new(None) };
+            let _t = seam::track();
+            AnyGc::Swh(GcSliceWithHeaderBuilder::<SwhHead<'gc>, SliceElem<'gc>>::new(len as usize).write_header(h).write_slice_with(mc, |_| Lock::new(None)))
+        }
+        Kind::SetInner | Kind::Lay { .. } | Kind::Built { .. } | Kind::ZstShared => unreachable!("not allocated through access::alloc"),
     }
 }
 
 pub fn read_strong<'gc>(any: AnyGc<'gc>, k: usize) -> Edge<'gc> {
-    match any {
+    match canon(any) {
+        AnyGc::Slice(g) => g[k].get(),
+        AnyGc::Swh(g) => {
+            if k == 0 {
+                g.header.slot.get()
+            } else {
+                g.slice[k - 1].get()
+            }
+        }
+        AnyGc::Opaque(_) => None,
+        AnyGc::ThinSlice(_) | AnyGc::ThinSwh(_) | AnyGc::NodeE(_) | AnyGc::NodeD(_) => unreachable!(),
         AnyGc::Node(g) => g.borrow().strong[k],
         AnyGc::Field(g) => match k {
             0 => g.a.get(),
@@ -153,7 +238,7 @@ pub fn read_strong<'gc>(any: AnyGc<'gc>, k: usize) -> Edge<'gc> {
 }
 
 pub fn read_weak<'gc>(any: AnyGc<'gc>, k: usize) -> WEdge<'gc> {
-    match any {
+    match canon(any) {
         AnyGc::Node(g) => g.borrow().weak[k],
         AnyGc::Field(g) => match k {
             0 => g.w.get(),
@@ -174,7 +259,38 @@ pub enum Wrote {
 
 /// Store `v` into strong slot `k` of `any` through a sanctioned route.
 pub fn write_strong<'gc>(mc: &Mutation<'gc>, any: AnyGc<'gc>, self_id: Id, k: usize, route: Route, v: Edge<'gc>) -> Wrote {
-    match any {
+    match canon(any) {
+        AnyGc::Slice(g) => {
+            match route {
+                Route::ViaThin => Gc::write(mc, Gc::as_thin(g))[k].unlock().set(v),
+                Route::ViaRange => Gc::write(mc, g)[k..][0usize].unlock().set(v),
+                _ => Gc::write(mc, g)[k].unlock().set(v),
+            }
+            Wrote::Done
+        }
+        AnyGc::Swh(g) => {
+            match route {
+                Route::ViaThin => {
+                    let w = Gc::write(mc, Gc::as_thin(g));
+                    if k == 0 {
+                        field!(field!(w, SliceWithHeader, header), SwhHead, slot).unlock().set(v)
+                    } else {
+                        field!(w, SliceWithHeader, slice)[k - 1].unlock().set(v)
+                    }
+                }
+                _ => {
+                    let w = Gc::write(mc, g);
+                    if k == 0 {
+                        field!(field!(w, SliceWithHeader, header), SwhHead, slot).unlock().set(v)
+                    } else {
+                        field!(w, SliceWithHeader, slice)[k - 1].unlock().set(v)
+                    }
+                }
+            }
+            Wrote::Done
+        }
+        AnyGc::Opaque(_) => Wrote::Refused,
+        AnyGc::ThinSlice(_) | AnyGc::ThinSwh(_) | AnyGc::NodeE(_) | AnyGc::NodeD(_) => unreachable!(),
         AnyGc::Node(g) => {
             match route {
                 Route::WriteUnlock => Gc::write(mc, g).unlock().borrow_mut().strong[k] = v,
@@ -249,7 +365,7 @@ pub fn write_strong<'gc>(mc: &Mutation<'gc>, any: AnyGc<'gc>, self_id: Id, k: us
 }
 
 pub fn write_weak<'gc>(mc: &Mutation<'gc>, any: AnyGc<'gc>, k: usize, route: Route, v: WEdge<'gc>) -> Wrote {
-    match any {
+    match canon(any) {
         AnyGc::Node(g) => {
             match route {
                 Route::WriteUnlock => Gc::write(mc, g).unlock().borrow_mut().weak[k] = v,
@@ -298,7 +414,7 @@ pub fn is_forward_route(kind: Kind, route: Route) -> bool {
 
 /// A barrier-bearing no-op on a leaf (the value already there is written back).
 pub fn touch<'gc>(mc: &Mutation<'gc>, any: AnyGc<'gc>) {
-    match any {
+    match canon(any) {
         AnyGc::Leaf(g) => {
             let b = g.borrow_mut(mc);
             b.val.set(b.val.get());
@@ -326,6 +442,15 @@ pub fn touch<'gc>(mc: &Mutation<'gc>, any: AnyGc<'gc>) {
                 AnyGc::SetHolder(g) => {
                     Gc::write(mc, g);
                 }
+                AnyGc::Slice(g) => {
+                    Gc::write(mc, g);
+                }
+                AnyGc::Swh(g) => {
+                    Gc::write(mc, g);
+                }
+                AnyGc::Opaque(g) => {
+                    Gc::write(mc, g);
+                }
                 _ => {}
             };
         }
@@ -333,7 +458,7 @@ pub fn touch<'gc>(mc: &Mutation<'gc>, any: AnyGc<'gc>) {
 }
 
 pub fn set_of<'gc>(any: AnyGc<'gc>) -> Option<DynamicRootSet<'gc>> {
-    match any {
+    match canon(any) {
         AnyGc::SetHolder(g) => Some(g.set),
         _ => None,
     }
